@@ -89,6 +89,15 @@ pub fn alphabet() -> Vec<Vec<Value>> {
             rule("dy", 2, "/p/@m", Some("/p/@m"), Some(302), json!({"markers": [{"name": "m", "regex": "[a-z]+", "transformers": []}], "source": {"host": "@h.example.org"}}), vec![ex("https://www.example.org/p/x", true, &["ru-dy"])]),
         ],
         vec![
+            rule("nn", 13, "/n", Some(&format!("https://EXAMPLE.org:443/x/../n")), Some(301), json!({}), vec![ex(&format!("https://{HOST}/n"), true, &["ru-nn"])]),
+            rule("nn", 13, "/n", Some(&format!("HTTPS://{HOST}/./n")), Some(308), json!({"source": {"methods": ["GET", "POST"]}}), vec![ex("/n", true, &["ru-nn"])]),
+        ],
+        vec![
+            rule("f4", 1, "/c", None, None, json!({"source": {"response_status_codes": [404]}, "header_filters": [{"action": "add", "header": "X-Robots-Tag", "value": "noindex", "id": "uf4", "target_hash": "tf4"}],
+                 "body_filters": [{"action": "append_text", "content": "<!-- 404 -->", "id": "ub4", "target_hash": null}]}), vec![json!({"url": "/c", "method": null, "headers": null, "ip_address": null, "response_status_code": 404, "must_match": true, "unit_ids_applied": ["uf4", "ub4"]})]),
+            rule("f4", 1, "/c", None, None, json!({"source": {"response_status_codes": [404], "exclude_response_status_codes": true}, "header_filters": [{"action": "add", "header": "X-Not-404", "value": "1", "id": "uf4", "target_hash": "tf4"}]}), vec![ex("/c", true, &["uf4"])]),
+        ],
+        vec![
             rule("ab2", 12, "/x", Some("https://other.org/y"), Some(301), json!({}), vec![ex("/x", true, &["ru-ab2"])]),
             rule("ab2", 12, "/x", Some(&format!("https://{HOST}/a")), Some(302), json!({"stop": true}), vec![ex("/x", true, &["ru-ab2"])]),
         ],
@@ -253,6 +262,17 @@ fn probe_answers(router: &Router<Rule>) -> Vec<Vec<String>> {
 }
 
 /// the live pipeline in proxy order for one example
+/// status decided before any backend response (0 = the backend is called)
+fn request_time_status(router: &Router<Rule>, example: &Example) -> u16 {
+    match Request::from_example(&router.config, example) {
+        Err(_) => 0,
+        Ok(request) => {
+            let routes = router.match_request(&request);
+            Action::from_routes_rule(routes, &request, None).get_status_code(0, None)
+        }
+    }
+}
+
 fn live_pipeline(router: &Router<Rule>, example: &Example) -> Option<(u16, u16, Vec<(String, String)>, String, bool)> {
     let request = Request::from_example(&router.config, example).ok()?;
     let routes = router.match_request(&request);
@@ -466,10 +486,13 @@ pub fn check_case(case: &Case) -> Vec<(String, String)> {
                         ("body", s["response"]["body"].as_str() == Some(body.as_str())),
                         ("should_log_request", s["should_log_request"].as_bool() == Some(log)),
                     ];
+                    // the open finding: with an example status code explain skips the request-time phase. It only
+                    // explains differences in cases where the live pipeline decides at request time.
+                    let phase = if case.example_code.is_some() && request_time_status(&final_router, &e) != 0 { "given,live-pipeline-decides-at-request-time" } else if case.example_code.is_some() { "given,backend-phase" } else { "none" };
                     for (f, ok) in fields {
                         if !ok {
                             out.push((
-                                format!("explain:response-differs-from-live-pipeline:{f}:example-code={}", if case.example_code.is_some() { "given" } else { "none" }),
+                                format!("explain:response-differs-from-live-pipeline:{f}:example-code={phase}"),
                                 format!("explain reports status {} backend {} headers {} log {}; the live pipeline gives status {fc} backend {bc} headers {headers:?} log {log}; example {example}; {ctx}", s["response"]["status_code"], s["backend_status_code"], s["response"]["headers"], s["should_log_request"]),
                             ));
                         }
@@ -542,7 +565,7 @@ pub fn cases(tier: Tier) -> Vec<Case> {
         }
     }
     let mut out = Vec::new();
-    let urls = ["/a", "/b", "/c", "/s", "/x", "/p/x", "/zzz", "http://[::1"];
+    let urls = ["/a", "/b", "/c", "/s", "/x", "/p/x", "/zzz", "http://[::1", "/n", "https://example.org/n"];
     for (bi, base) in bases.iter().enumerate() {
         let absent: Vec<usize> = (0..n).filter(|i| !base.contains(i)).collect();
         let mut change_sets: Vec<(Vec<usize>, Vec<usize>, Vec<usize>)> = vec![(vec![], vec![], vec![])];
